@@ -193,6 +193,11 @@ def mk(ns, S, M, D, style, ncoef, power, log, trans=None, real=True, dtype='f8')
     o._y_buf = NP.empty((yb, 2, ncoef), 'f8')
     o._bank = _Bank(ncoef)
     o._include_energy = False
+    import copy
+    from vlib import loader as _loader
+    for k, v in _loader.literal_init_fields('compute', 'ShortIntegrationFrameComputer').items():
+        if k not in o.__dict__:
+            o.__dict__[k] = copy.deepcopy(v)       # literal-initialised state the hand-built instance does not know about
     return o
 
 
